@@ -343,6 +343,12 @@ MUTANTS = [
     ("c11-get-edges-returns-vertices", ["C11", "C04"], "SH7", P,
      "        return PointPair(self.edges)",
      "        return PointPair(self.vertices)"),
+    ("c12-normalize-unfix-int", ["C12"], "T3", C,
+     "    if np.issubdtype(vectors.dtype, np.integer):\n        # integer arrays cannot hold the quotient\n        vectors = vectors.astype('float64')\n\n",
+     ""),
+    ("c12-point-along-unfix-buffer", ["C12"], "LK1", H,
+     "                                  like=self.proj_data,\n                                  integer_type=False)",
+     "                                  like=self.proj_data)"),
     # ---- C15
     ("c15-drop-reflection-guard", ["C15"], "R1", H,
      "        if (np.abs(eval_differences) > ERROR_THRESHOLD).any():\n            raise GeometryError(\"Not a reflection matrix\")\n",
